@@ -35,8 +35,8 @@ STEP_BUDGET = 20000
 def config(tier):
     return {
         'level': 'fault_enumeration',
-        'cases': 48 if tier == 'quick' else 1500,
-        'budget_s': 57 if tier == 'quick' else 575,
+        'cases': 32 if tier == 'quick' else 1500,
+        'budget_s': 50 if tier == 'quick' else 575,
         'grace_s': 60,
         'floors': {'cases': 20, 'fault_plans': 1500, 'faults_delivered': 1200,
                    'one_shot_plans': 1000, 'persistent_plans': 60,
@@ -100,7 +100,7 @@ def gen_case(rng, index, tier):
     case['state'] = state
     case['tdir'] = tdir
     case['seed'] = rng.getrandbits(30)
-    case['pairs'] = 12 if tier == 'quick' else 60
+    case['pairs'] = 8 if tier == 'quick' else 60
     case['all_pairs'] = tier != 'quick'
     return case
 
@@ -287,7 +287,8 @@ def run_case(case):
     cands.append('@/v1/.Trash')
     cands.append('@/v1/.Trash-%d' % case['uid'])
     for cdir in cands:
-        for err in (E.EACCES, E.EROFS, E.ENOSPC, E.EIO):
+        for err in (E.EACCES, E.EROFS, E.ENOSPC, E.EIO, E.ENAMETOOLONG,
+                    E.EMFILE, E.EDQUOT):
             for mode in ('all-mutating', 'creates', 'writes', 'excl-create'):
                 pf = {'prefix': cdir, 'errno': err}
                 if mode == 'all-mutating':
